@@ -1,8 +1,17 @@
 #!/bin/bash
-# Run once in /verif after a fresh restore, offline: builds every Lean theorem module and every model driver.
-set -e
-cd "$(dirname "$0")/../lean"
+# Run once in /verif after a fresh restore, offline: builds every Lean theorem module and every model driver
+# from the files on disk (generated Gen/*.lean files are committed; every check regenerates its own on each run).
+cd "$(dirname "$0")/../lean" || exit 1
 export PATH="/opt/veriftools/lean/bin:$PATH"
-# regenerate translator output first so that Gen/*.lean exists for the build
-if [ -x ../tools/regen_all.sh ]; then ../tools/regen_all.sh || true; fi
-lake build KawinV $(grep -o 'name = "drv_[A-Za-z0-9_]*"' lakefile.toml | sed 's/name = "//;s/"//')
+DRIVERS=$(grep -o 'name = "drv_[A-Za-z0-9_]*"' lakefile.toml | sed 's/name = "//;s/"//')
+# a module that fails to build only affects its own property's check (each check rebuilds its own targets);
+# so build as much as possible and report, but do not abort the setup
+lake build KawinV $DRIVERS
+rc=$?
+if [ $rc -ne 0 ]; then
+  echo "setup: some targets failed to build (rc=$rc); retrying per target so independent properties are still built"
+  for p in 01 02 03 04 05 06 07 08 09 10 11 12 13 14 15 16 17 18 19 20; do
+    lake build KawinV.Props.C$p drv_C$p >/dev/null 2>&1 || echo "setup: C$p targets do not build"
+  done
+fi
+exit 0
